@@ -251,6 +251,8 @@ def check(ctx):
     from ..rules import shared as _shm
     _shm.check_class_level_containers(ctx)
     ctx.floor('A11m', 3, 'mutable containers created in class bodies')
+    from ..rules import shapes as _shr
+    _shr.check_sibling_reductions(ctx)
 
 
 from ..selftest import V  # noqa: E402
